@@ -133,3 +133,26 @@ Proof.
 Qed.
 Print Assumptions C07_LA_tcr_sb_plan.
 (* non-vacuity: Example C06_LA_tcr_sb_plan_nonvacuous (Props/C06_tcr.v) instantiates every hypothesis *)
+
+(* PLAN LEVEL for one `sometime-after phi psi`, completeness direction (hypotheses as in C06_LA_tcr_sa_plan) *)
+Theorem C07_LA_tcr_sa_plan :
+  forall (smp sub0 : expr -> expr) (mon : nat -> N) (phi psi : expr) (P : problem) (G : state -> Prop),
+    smp_exact smp -> unique_ids P -> gproblem P = true ->
+    gform phi = true -> gbool P phi = true -> gform psi = true -> gbool P psi = true ->
+    tcr_fresh1 smp (mon 0) P phi = true -> tcr_fresh1 smp (mon 0) P psi = true ->
+    (forall s aid a args t, G s -> lookup_action P aid = Some a -> spec_step false P s a args = Some t -> G t) ->
+    (forall s aid a, G s -> lookup_action P aid = Some a -> reg_ok P s a = true) ->
+    (forall s, G s -> gdef s phi = true) -> (forall s, G s -> gdef s psi = true) ->
+    forall P', tcr_compile smp sub0 mon [ESometimeAfter phi psi] P = Some P' ->
+    forall s0 s0' pi, G s0 -> agree_off (mon 0) s0 s0' ->
+      s0' (mon 0) [] = Some (VBool (holds false (mk_interp P s0 []) psi || negb (holds false (mk_interp P s0 []) phi))) ->
+      valid_plan false P s0 pi = true ->
+      sa_bit P phi psi (holds false (mk_interp P s0 []) psi || negb (holds false (mk_interp P s0 []) phi)) s0 pi = true ->
+      valid_plan false P' s0' pi = true.
+Proof.
+  intros smp sub0 mon phi psi P G H1 H2 H3 H4 H5 H6 H7 H8 H9 H10 H11 H12 H13 P1 H14 s0 s0' pi H15 H16 H17 H18 H19.
+  rewrite (tcr_sa_plan smp sub0 mon phi psi P G H1 H2 H3 H4 H5 H6 H7 H8 H9 H10 H11 H12 H13 P1 H14 s0 s0' pi H15 H16 H17), H18, H19.
+  reflexivity.
+Qed.
+Print Assumptions C07_LA_tcr_sa_plan.
+(* non-vacuity: Example C06_LA_tcr_sa_plan_nonvacuous (Props/C06_tcr.v) instantiates every hypothesis *)
